@@ -77,16 +77,21 @@ def run_property(plan, prop, tier, seed, keep=False, only=None, jobs=0):
         base_targets[key] = bt
 
     if not codegen_fail:
-        workers = _budget_workers(hs, jobs)
-        dcv.log("%s/%s: %d harnesses, %d workers" % (prop, tier, len(hs), workers))
+        workers = jobs or 14
+        budget = dcv.MemBudget(total_gb=float(os.environ.get("VERIF_MEM_GB", "56")), max_jobs=workers)
+        dcv.log("%s/%s: %d harnesses, up to %d in flight within %.0f GB" % (prop, tier, len(hs), workers, budget.total))
 
         def _run(h):
             c = build["crates"][h["crate"]]
-            r = dcv.run_harness(c["dir"], base_targets[h["crate"]], h, ws.root, logs_dir, features=c.get("features", ()))
+            got = budget.acquire(h.get("mem_gb", 16))
+            try:
+                r = dcv.run_harness(c["dir"], base_targets[h["crate"]], h, ws.root, logs_dir, features=c.get("features", ()))
+            finally:
+                budget.release(got)
             dcv.log("  %-40s %-8s %6.1fs %s" % (h["name"], r.status, r.wall_s, r.detail[:100]))
             return r
 
-        results = dcv.run_parallel([(lambda h=h: _run(h)) for h in hs], max_workers=workers)
+        results = dcv.run_parallel([(lambda h=h: _run(h)) for h in hs], max_workers=max(len(hs), 1))
 
     # 4. classify
     kf = dcv.load_known_findings()
